@@ -304,7 +304,12 @@ fn stmt_to_asg_stmt(stmt: synast::Stmt, context: &mut Context) -> Option<asg::St
         synast::Stmt::IfStmt(if_stmt) => {
             let condition = expr_to_asg_texpr(if_stmt.condition(), context);
             with_scope!(context,  ScopeType::Local,
-                        let then_branch = block_or_stmt_to_asg_type(if_stmt.true_body_block_or_stmt(), context);
+                        // An empty statement `;` as the body leaves neither a block nor a statement.
+                        let then_branch = if if_stmt.then_branch_block().is_none() && if_stmt.then_branch_stmt().is_none() {
+                            asg::Block::new(Vec::new())
+                        } else {
+                            block_or_stmt_to_asg_type(if_stmt.true_body_block_or_stmt(), context)
+                        };
             );
             with_scope!(context,  ScopeType::Local,
                         let else_branch = if_stmt.false_body_block_or_stmt().map(|bors| block_or_stmt_to_asg_type(bors, context));
@@ -315,7 +320,11 @@ fn stmt_to_asg_stmt(stmt: synast::Stmt, context: &mut Context) -> Option<asg::St
         synast::Stmt::WhileStmt(while_stmt) => {
             let condition = expr_to_asg_texpr(while_stmt.condition(), context);
             with_scope!(context,  ScopeType::Local,
-                        let loop_body = block_or_stmt_to_asg_type(while_stmt.block_or_stmt(), context);
+                        let loop_body = if while_stmt.body().is_none() && while_stmt.stmt().is_none() {
+                            asg::Block::new(Vec::new())
+                        } else {
+                            block_or_stmt_to_asg_type(while_stmt.block_or_stmt(), context)
+                        };
             );
             Some(asg::While::new(condition.unwrap(), loop_body).to_stmt())
         }
@@ -340,7 +349,11 @@ fn stmt_to_asg_stmt(stmt: synast::Stmt, context: &mut Context) -> Option<asg::St
             };
             with_scope!(context,  ScopeType::Local,
                         let loop_var_symbol_id = context.new_binding(loop_var.string().as_ref(), &ty, &loop_var);
-                        let loop_body = block_or_stmt_to_asg_type(for_stmt.block_or_stmt(), context);
+                        let loop_body = if for_stmt.body().is_none() && for_stmt.stmt().is_none() {
+                            asg::Block::new(Vec::new())
+                        } else {
+                            block_or_stmt_to_asg_type(for_stmt.block_or_stmt(), context)
+                        };
             );
             Some(asg::ForStmt::new(loop_var_symbol_id, iterable, loop_body).to_stmt())
         }
